@@ -131,10 +131,38 @@ def _ways():
     def via_str(s):
         return str(Tag("div", s))
 
+    def renamed_from_script(s):
+        t = Tag("script", "a")
+        t.name = "pre"
+        t.append(s)
+        return t.get_html_string()
+
+    def renamed_copy_of_style(s):
+        import copy
+        t = copy.copy(Tag("style", s))
+        t.name = "div"
+        return t.get_html_string()
+
+    def after_same_text_as_attribute(s):
+        # history: the same string was escaped as an attribute value first
+        Tag("div", title=s, class_=s).get_html_string()
+        return Tag("div", "a", s, Tag("span")).get_html_string()
+
+    def after_same_text_in_script(s):
+        Tag("script", s, "x").get_html_string()
+        return Tag("p", s).get_html_string()
+
+    def rendered_twice(s):
+        t = Tag("div", s, Tag("span"))
+        t.get_html_string()
+        return t.get_html_string()
+
     return {f.__name__: f for f in (ctor, nested_list, nested_tuple, nested_taglist, append,
                                     extend, extend_str, insert0, insert_mid, iadd, add,
                                     taglist_insert, via_tagify_str, via_tagify_list,
-                                    via_tagify_tag, via_document, via_str)}
+                                    via_tagify_tag, via_document, via_str, renamed_from_script,
+                                    renamed_copy_of_style, after_same_text_as_attribute,
+                                    after_same_text_in_script, rendered_twice)}
 
 
 _CACHE = {}
@@ -217,8 +245,32 @@ def fn_way(chars):
     return (any(c in TEXT_MUST for c in s), None, viols)
 
 
+def lookalikes():
+    """strings that look like character references (must never be left un-escaped)."""
+    import html.entities
+    out = []
+    names = sorted({k.rstrip(";") for k in html.entities.html5})
+    for n in names:
+        out.append("&" + n + ";")
+    for n in names[:400]:
+        out.append("&" + n)
+    for cp in (38, 60, 62, 34, 39, 10, 13, 65, 160, 0x1F600, 0, 0x110000):
+        out += [f"&#{cp};", f"&#x{cp:X};", f"&#x{cp:x};", f"&#{cp}", f"&#0{cp};"]
+    out += ["AT&amp;T", "&lt;b&gt;", "&amp;amp;", "&&amp;", "&amp;&", "&;", "&#;", "&#x;", "a&amp;lt;b",
+            "&amp;#60;", "&#38;amp;", "<&lt;>", "&AMP;", "&Lt;", "&GT;", "&quot;", "&apos;"]
+    return out
+
+
+def fn_lookalike(s):
+    viols = []
+    check_probe(s, _frames("core"), viols)
+    check_probe(s, _frames("ways"), viols, keyprefix="way:")
+    return (True, None, viols, len(CORE) + 1 + len(_frames("ways")))
+
+
 NUMBERS = [["N", 0], ["N", 7], ["N", -1], ["N", 2.5], ["NS", "1e21"], ["NS", "10**30"],
-           ["NS", "nan"], ["NS", "inf"], ["NS", "True"]]
+           ["NS", "nan"], ["NS", "inf"], ["NS", "True"], ["NS", "intenum"], ["NS", "floatsub"],
+           ["NS", "-0.0"], ["NS", "intflag"]]
 
 
 def fn_number(case):
@@ -228,8 +280,9 @@ def fn_number(case):
     viols = []
     for table_name in ("ctx", "ways"):
         for name, (f, pre, suf) in _frames(table_name).items():
-            if name in ("extend_str", "add"):
-                continue       # these pass the probe as an iterable / + operand, not a child
+            if name in ("extend_str", "add", "after_same_text_as_attribute", "after_same_text_in_script",
+                        "renamed_copy_of_style"):
+                continue       # these use the probe as an iterable / + operand / attribute, not only a child
             if name.startswith("via_tagify"):
                 continue       # tagify() must not return a bare number
             out = f(n)
@@ -258,6 +311,9 @@ def plan(tier):
         dict(kind="space", name="ways-of-adding", space=Seq(Const(SIGMA), 0, 3 if tier == "quick" else 4),
              fn=fn_way, execs=nways + 1,
              note=f"{nways} ways of adding a child x all strings of length <= 3/4"),
+        dict(kind="space", name="reference-lookalikes", space=Const(lookalikes()), fn=fn_lookalike,
+             note="every HTML5 named reference (with ';', 400 without), numeric references, double-escape "
+                  "look-alikes x core contexts x ways of adding"),
         dict(kind="space", name="numbers", space=Const(NUMBERS), fn=fn_number,
              execs=nctx + nways, note="numeric children rendered as str(n)"),
     ]
